@@ -18,6 +18,7 @@ import (
 	"github.com/nspcc-dev/neo-go/pkg/config/limits"
 	"github.com/nspcc-dev/neo-go/pkg/core/block"
 	"github.com/nspcc-dev/neo-go/pkg/core/dao"
+	"github.com/nspcc-dev/neo-go/pkg/core/fee"
 	"github.com/nspcc-dev/neo-go/pkg/core/interop"
 	"github.com/nspcc-dev/neo-go/pkg/core/interop/contract"
 	"github.com/nspcc-dev/neo-go/pkg/core/mempool"
@@ -3191,6 +3192,22 @@ func (bc *Blockchain) IsTxStillRelevant(t *transaction.Transaction, txpool *memp
 	}
 	if recheckWitness {
 		return bc.verifyTxWitnesses(t, nil, isPartialTx) == nil
+	}
+	// Standard witnesses are not executed again, but what their verification
+	// costs depends on the execution fee factor and has to fit into what the
+	// size and attribute fees leave of the network fee.
+	if !isPartialTx {
+		var (
+			base    = bc.GetBaseExecFee()
+			needFee = int64(t.Size())*bc.FeePerByte() + bc.CalculateAttributesFee(t)
+		)
+		for i := range t.Scripts {
+			cost, _ := fee.Calculate(base, t.Scripts[i].VerificationScript)
+			needFee += cost
+		}
+		if t.NetworkFee < needFee {
+			return false
+		}
 	}
 	return true
 }
